@@ -371,7 +371,7 @@ def _eos_wide_case(draw, tier):
     }
 
 
-@subcheck("C02", "eos_padded_wide", lambda tier: _eos_wide_case(tier), 60, 1500,
+@subcheck("C02", "eos_padded_wide", lambda tier: _eos_wide_case(tier), 40, 300,
           doc="transcripts of <= 6 tokens in tensors 257..530 (thorough ..2049) wide, padded with copies of eos: same bounds oracle")
 def _eos_padded_wide(case):
     info = _er_bounds(case) if case["which"] == "er" else _prefix_er_bounds(case)
